@@ -326,6 +326,81 @@ def oracle(ctx):
         if not warned and not float(fq(y).abs().max()) < 1e-9:
             ctx.fail("oracle", "root:%s:silent-but-not-converged" % m, {"probe": "y^3+1.3y-1"}, float(fq(y).abs().max()), "< 1e-9")
 
+    # ---- round-3 probes ----
+    # (a) restart from an exact solution with a multi-dimensional unknown: the early exits must hand back a tensor of the
+    #     shape and dtype of the initial guess (seeded C03/7: anderson_acc returned the flattened iterate)
+    for shape in ((3, 4), (2, 3, 4), (1, 2, 1)):
+        cst = torch.linspace(-1.0, 2.0, int(torch.tensor(shape).prod()), dtype=DT).reshape(shape)
+        probes = [("equil:anderson_acc", lambda: equilibrium(lambda y, c: c + 0.0 * y, cst.clone(), params=(cst,), method="anderson_acc")),
+                  ("equil:anderson_acc:feat_ndims=2", lambda: equilibrium(lambda y, c: c + 0.0 * y, cst.clone(), params=(cst,),
+                                                                          method="anderson_acc", feat_ndims=2)),
+                  ("equil:anderson_acc:feat_ndims=all", lambda: equilibrium(lambda y, c: c + 0.0 * y, cst.clone(), params=(cst,),
+                                                                            method="anderson_acc", feat_ndims=len(shape))),
+                  ("equil:anderson_acc:feat_ndims=2:generic-start", lambda: equilibrium(lambda y, c: c + 0.25 * (y - c), torch.zeros(shape, dtype=DT),
+                                                                                        params=(cst,), method="anderson_acc", feat_ndims=2)),
+                  ("equil:broyden1", lambda: equilibrium(lambda y, c: c + 0.0 * y, cst.clone(), params=(cst,), method="broyden1")),
+                  ("root:broyden1", lambda: rootfinder(lambda y, c: y - c, cst.clone(), params=(cst,), method="broyden1")),
+                  ("root:newton", lambda: rootfinder(lambda y, c: y - c, cst.clone(), params=(cst,), method="newton")),
+                  ("root:linearmixing", lambda: rootfinder(lambda y, c: y - c, cst.clone(), params=(cst,), method="linearmixing")),
+                  ("min:broyden1", lambda: minimize(lambda y, c: ((y - c) ** 2).sum(), cst.clone(), params=(cst,), method="broyden1")),
+                  ("min:gd", lambda: minimize(lambda y, c: ((y - c) ** 2).sum(), cst.clone(), params=(cst,), method="gd", step=0.1))]
+        for nm, fn in probes:
+            try:
+                y, warned = run(fn)
+            except Exception as e:
+                ctx.fail("oracle", "%s:restart-at-solution:exception" % nm, {"shape": list(shape)}, repr(e)[:200], "the solution")
+                continue
+            ctx.count(("restart-at-solution", nm, shape))
+            if tuple(y.shape) != shape or y.dtype != DT:
+                ctx.fail("oracle", "%s:restart-at-solution:shape-dtype" % nm, {"shape": list(shape), "initial_guess": "the exact solution"},
+                         [list(y.shape), str(y.dtype)], [list(shape), str(DT)])
+            elif not warned and not (y - cst).abs().max() <= 1e-6:
+                ctx.fail("oracle", "%s:restart-at-solution:silent-but-wrong" % nm, {"shape": list(shape)}, float((y - cst).abs().max()), "<= 1e-6")
+    # (b) a zero (or denormal) absolute tolerance is a tolerance, not "use the default": a silent return then carries an
+    #     exactly zero residual (seeded C03/8: `if not f_tol` replaced `if f_tol is None`)
+    bz = torch.tensor([0.3, -0.7, 1.1], dtype=DT)
+    cub = lambda y, b: y ** 3 + 1.3 * y - b
+    for f_tol in (0.0, 1e-300):
+        for nm, fn, resid in (
+                ("root:newton", lambda: rootfinder(cub, torch.zeros(3, dtype=DT), params=(bz,), method="newton", f_tol=f_tol, maxiter=60), lambda y: cub(y, bz)),
+                ("root:broyden1", lambda: rootfinder(cub, torch.zeros(3, dtype=DT), params=(bz,), method="broyden1", f_tol=f_tol, maxiter=60), lambda y: cub(y, bz)),
+                ("root:linearmixing", lambda: rootfinder(cub, torch.zeros(3, dtype=DT), params=(bz,), method="linearmixing", f_tol=f_tol, maxiter=60), lambda y: cub(y, bz)),
+                ("equil:anderson_acc", lambda: equilibrium(lambda y, b: b - 0.3 * y ** 3, torch.zeros(3, dtype=DT), params=(bz,), method="anderson_acc", f_tol=f_tol, maxiter=60),
+                 lambda y: bz - 0.3 * y ** 3 - y),
+                ("equil:broyden1", lambda: equilibrium(lambda y, b: b - 0.3 * y ** 3, torch.zeros(3, dtype=DT), params=(bz,), method="broyden1", f_tol=f_tol, maxiter=60),
+                 lambda y: bz - 0.3 * y ** 3 - y)):
+            try:
+                y, warned = run(fn)
+            except Exception as e:
+                ctx.fail("oracle", "%s:zero-tolerance:exception" % nm, {"f_tol": f_tol}, repr(e)[:200], "a point or a warning")
+                continue
+            ctx.count(("zero-tolerance", nm, f_tol))
+            r = float(resid(y).norm())
+            if not warned and not r <= f_tol:
+                ctx.fail("oracle", "%s:zero-tolerance:silent-but-not-converged" % nm, {"f_tol": f_tol, "maxiter": 60}, r,
+                         "a ConvergenceWarning, or a residual below the tolerance the caller asked for")
+    # (c) gd / adam on an objective that is exactly zero at the initial guess, with an absolute f_tol and a diverging step:
+    #     a warning, or a point no worse than the initial guess (seeded C03/9: the test on |f - fprev| with the placeholder
+    #     fprev = 0 marked the run as converged at iteration 0)
+    cz = torch.tensor([1.0, -2.0, 0.5, 3.0], dtype=DT)
+    energy = lambda y, c: ((y - c) ** 2).sum() - (c ** 2).sum()
+    for meth, kws in (("gd", dict(step=1.2, gamma=0.0)), ("gd", dict(step=1.2, gamma=0.9)), ("adam", dict(step=40.0))):
+        for f_tol in (1e-14, 1e-3):
+            for maxiter in (15, 60):
+                try:
+                    y, warned = run(lambda: minimize(energy, torch.zeros(4, dtype=DT), params=(cz,), method=meth, f_tol=f_tol, f_rtol=0.0,
+                                                     x_rtol=0.0, maxiter=maxiter, **kws))
+                except Exception as e:
+                    ctx.fail("oracle", "min:%s:zero-objective-at-guess:exception" % meth, {"f_tol": f_tol, **kws}, repr(e)[:200], "a point or a warning")
+                    continue
+                ctx.count(("min-zero-objective", meth, f_tol, maxiter, tuple(sorted(kws.items()))))
+                e1 = float(energy(y, cz))
+                if not warned and not e1 <= 1e-12:
+                    ctx.fail("oracle", "min:%s:silent-but-objective-increased" % meth,
+                             {"objective": "sum((y-c)^2) - sum(c^2), zero at the initial guess", "f_tol": f_tol, "maxiter": maxiter, **kws},
+                             {"objective_at_result": e1, "objective_at_initial_guess": 0.0},
+                             "a ConvergenceWarning, or an objective no larger than at the initial guess")
+
 
 def search(ctx):
     oracle(ctx)
